@@ -119,7 +119,20 @@ class Scenario:
             async for b in nl.subscribe_continuous_enabled():
                 sc.tok(f'pc:{1 if b else 0}')
         self.cont_task = asyncio.ensure_future(cont_sub())
+        self.subs: list = []
+        self._subscribe('state')
+        self._subscribe('trace_ids')
         await settle()
+
+    def _subscribe(self, what: str) -> None:
+        nl = self.nl
+        it = {'state': nl.subscribe_state, 'trace_ids': nl.subscribe_trace_ids, 'run_info': nl.subscribe_run_info,
+              'run_no': nl.subscribe_run_no}[what]()
+
+        async def consume() -> None:
+            async for _ in it:
+                pass
+        self.subs.append(asyncio.ensure_future(consume()))
 
     # ---------------------------------------------------------------------------------------------
     def _collect(self) -> None:
@@ -200,7 +213,7 @@ class Scenario:
             await self._call(w[1], getattr(nl, w[1])())
         elif w[0] == 'cmd':
             await self._call('send_pdb_command', nl.send_pdb_command('next', 1, 1))
-        elif w[0] == 'prompt':
+        elif w[0] in ('prompt', 'pexit'):
             live = self.world.live()
             if live:
                 c = live[-1]
@@ -216,6 +229,11 @@ class Scenario:
                 c.emit(E.OnStartCmdloop(started_at=now(), run_no=rn, trace_no=1, trace_call_no=p))
                 c.emit(E.OnStartPrompt(started_at=now(), run_no=rn, trace_no=1, trace_call_no=p, prompt_no=p,
                                        prompt_text='(Pdb) ', file_name='<string>', line_no=1, frame_object_id=1, event='line'))
+                if w[0] == 'pexit':      # exit at once: the events are still in the channel
+                    if w[1] == '-':
+                        c.exit(None, exitcode=-9)
+                    else:
+                        c.exit(RunResult(ret=int(w[1])), exitcode=0)
             await settle()
             self._collect()
         elif w[0] == 'exit':
@@ -236,7 +254,13 @@ class Scenario:
             ce = '1' if nl.continuous_enabled else '0'
         except LookupError:
             ce = 'E'
-        return ' '.join(self.tokens + [f'st={nl.state}', f'ce={ce}'])
+        if w[0] == 'start':
+            self._subscribe('run_info')
+            self._subscribe('run_no')
+            await settle()
+        lc = len(self.world.live())
+        sd = sum(1 for t in self.subs if t.done())
+        return ' '.join(self.tokens + [f'st={nl.state}', f'ce={ce}', f'lc={lc}', f'sd={sd}/{len(self.subs)}'])
 
     async def teardown(self) -> dict:
         """Leave nothing running; report what was still blocked."""
@@ -250,6 +274,9 @@ class Scenario:
             info['close_error'] = f'{type(e).__name__}: {e}'
         await settle()
         for _, t in self.pending:
+            t.cancel()
+        info['subscribers_done_after_close'] = [t.done() for t in self.subs]
+        for t in self.subs:
             t.cancel()
         if self.cont_task is not None:
             info['cont_subscriber_done'] = self.cont_task.done()
@@ -275,7 +302,7 @@ def group(reply: str) -> dict:
     """per-kind sequences of a reply (cross-kind order is not compared)"""
     g: dict = {}
     for tok in reply.split():
-        if tok.startswith('st=') or tok.startswith('ce='):
+        if tok[2:3] == '=' and tok[:2] in ('st', 'ce', 'lc', 'sd'):
             g[tok[:2]] = [tok[3:]]
             continue
         k = tok.split(':', 1)[0]
